@@ -55,7 +55,7 @@ CHECKS = {
         level="fault_enumeration", design="DESIGN.md 4/C04",
         technique="same TLA+ model with resume on and a Crash action at every state (cut inside/outside MULTI, restart from the newest checkpoint) model-checked by TLC; simulated behaviours with cuts replayed lock-step: the real LoadCheckpoint reads what the real sender stored and a new parser/sender resumes; every per-step snapshot (= every cut point reached) validated by TLC against CkptAtomic and the resume contract",
         text="TLC proves that in every reachable state the dataset equals the source history up to the newest stored offset, that a run id is stored with every offset and that restart + completion loses and repeats nothing, for every cut position (1-2 cuts); replayed behaviours exercise the same cuts on the real code (target connections killed at a command boundary while commands wait in the target's gate), with the real loader and a real restart, and TLC judges the real target state after every step.",
-        note="Static offset base (the live acknowledgement path is C08); cuts are at command boundaries of the target's input; mredis stands in for the target."),
+        note="Lock-step cuts are at command boundaries of the target's input with a static offset base; the end-to-end part (System.tla, SystemTrace.tla) runs the whole DbSyncer.Sync() against a scripted source with connection drops and, in a process of its own, kills it with SIGKILL at sampled moments and restarts it, judging every target transaction; mredis stands in for the target."),
     "C07": dict(
         level="model_checking", design="DESIGN.md 4/C07",
         technique="TLA+ model of the worker pool (FullSync.tla) model-checked by TLC over all entry sequences and interleavings; entry sequences from the model's initial states concretised and run through the real syncRDBFile/restoreRDBFile against a model Redis whose command processing is scheduled (random / starve-one-connection), with the per-connection command log and final keyspace validated by TLC (FsTrace.tla)",
